@@ -115,7 +115,7 @@ def run(c, cd, v3exe, rng, n_hist, keyprefix=""):
                 if mt[0] == "e":
                     if not x.startswith("E "):
                         # too large for the private buffer is legitimate
-                        if len(mt[1]) + block > 4080 and x == "ERR OutOfBuffer":
+                        if len(mt[1]) + block > vf.constant("BUF_MAX_SIZE", 4080) and x == "ERR OutOfBuffer":
                             continue
                         c.violation("encrypt failed: %s" % x, {"cmd": li, "profile": prof}, key=keyprefix + "encrypt-failed")
                         continue
